@@ -1016,6 +1016,10 @@ class Elemwise(Blockwise):
         if self.where is not True:
             blockwise_kwargs["elemwise_where_function"] = op
             op = _elemwise_handle_where
+            if isinstance(self.out, ArrayExpr):
+                # the block function writes into a copy of out's block: as in
+                # NumPy, the result has the dtype of out
+                dtype = self.out.dtype
 
         if need_enforce_dtype:
             blockwise_kwargs.update(
